@@ -7,7 +7,7 @@ What the AGENT is shown for a folder (property C14, round 7): the refresh flag o
 * `Folder.pre_timestep` / `FileSystem.pre_timestep` / `Node.pre_timestep` RESET it (`Node.pre` below): unconditionally of the node's
   power state, but `FileSystem.pre_timestep` walks `self.folders` — the LIVE folders — so a deleted folder keeps its flag.
 * `FolderObservation.observe` (game/agent/observations/file_system_observations.py) with `file_system_requires_scan`: the folder's
-  `visible_status` if the flag is set, else the value it reported last time (`cached_obs`); a folder that is not in the state
+  `visible_status` if the flag is set, else the value it reported last time (`cached_obs`) — provided that value was read from this very folder (`_cached_uuid`); a folder that is not in the state
   dictionary (deleted) is reported as 0 and the cache is left alone. Without `requires_scan` it reports the actual health.
 * `PrimaiteGame.step`: `pre_timestep; <requests of the agents>; apply_timestep; observe` (`Node.gameStep`).
 
@@ -33,18 +33,27 @@ structure FolderObs where
   requiresScan : Bool
   /-- `cached_obs["health_status"]` (starts as the default observation: 0 = NONE) -/
   cached : FsH := .none
+  /-- `_cached_uuid`: which folder the cached value was read from (`none` before the first observation of a live folder). The
+  model's identity of a folder is its position in `Node.folders` (folders are never removed from that list; a newly created one is
+  appended). After "fix: a folder created under the name of a deleted one showed the old folder's cached health". -/
+  cachedId : Option Nat := none
 deriving DecidableEq, Repr
 
 /-- `FolderObservation.observe` given the folder's entry of the state dictionary (`none` = `NOT_PRESENT_IN_STATE`): the reported
 health and the observer afterwards -/
-def FolderObs.see (o : FolderObs) : Option Folder → FsH × FolderObs
+def FolderObs.see (o : FolderObs) : Option (Nat × Folder) → FsH × FolderObs
   | none => (.none, o)
-  | some G =>
-    let h := if o.requiresScan then (if !G.scanned then o.cached else G.visible) else G.actual
-    (h, { o with cached := h })
+  | some (i, G) =>
+    let same := o.cachedId = none ∨ o.cachedId = some i
+    let h := if o.requiresScan then (if !G.scanned ∧ same then o.cached else G.visible) else G.actual
+    (h, { o with cached := h, cachedId := some i })
+
+/-- position of the live folder of that name (its identity) -/
+def Node.liveFolderIdx? (n : Node) (F : String) : Option Nat := n.folders.findIdx? (fun G => G.name = F && !G.deleted)
 
 /-- `FileSystem.describe_state()["folders"]` lists the live folders by name -/
-def FolderObs.observe (o : FolderObs) (n : Node) : FsH × FolderObs := o.see (n.liveFolder? o.name)
+def FolderObs.observe (o : FolderObs) (n : Node) : FsH × FolderObs :=
+  o.see ((n.liveFolder? o.name).map (fun G => ((n.liveFolderIdx? o.name).getD 0, G)))
 
 /-- `PrimaiteGame.step` as one node sees it: `pre_timestep`, the agents' requests (any operations), `apply_timestep`; then the
 observation is taken -/
